@@ -197,6 +197,18 @@ def check_degenerate(np, ce, pp, layout):
         for l in pl.lines_iterator():
             if l.crop is None or l.crop.shape[0] != 40:
                 bad.append(('degenerate-falls-back-to-blank-of-configured-height', 'LineCropper: line %s crop %r' % (l.id, None if l.crop is None else l.crop.shape)))
+        # the page is cropped again after its good line was moved (refinement stages move baselines between two crops): every line
+        # is cropped from where it is NOW, whatever crop it carried before
+        ok = [l for l in pl.lines_iterator() if l.id == 'ok'][0]
+        first = ok.crop.copy()
+        ok.baseline = ok.baseline + np.array([120., 60.])
+        ok.polygon = ok.polygon + np.array([120., 60.])
+        with contextlib.redirect_stdout(io.StringIO()):
+            lc.process_page(img, pl)
+        want = ce.EngineLineCropper(line_height=40, poly=2, scale=1).crop(img, ok.baseline, ok.heights)
+        if ok.crop is None or ok.crop.shape != want.shape or np.abs(ok.crop.astype(int) - want.astype(int)).max() > 1:
+            bad.append(('non-degenerate-baseline-is-cropped', 'LineCropper.process_page on a page that was cropped before: the moved line still has %s'
+                        % ('its old crop' if ok.crop is not None and ok.crop.shape == first.shape and np.array_equal(ok.crop, first) else 'a crop that is not the band around its baseline')))
     except Exception as e:
         bad.append(('degenerate-never-an-error', 'LineCropper.process_page raised %r' % (e,)))
     return bad
